@@ -115,8 +115,13 @@ fn run_script<S: Source>(sc: &[Sop], p: &mut Primitive<S>, log: &mut Log) -> Res
     }
     Ok(())
 }
-/// DecodeError does not expose its kind; its derived Debug output does.
-pub fn is_source_err<E: std::fmt::Debug>(e: &DecodeError<E>) -> bool { format!("{:?}", e).starts_with("DecodeError { inner: Source(") }
+/// DecodeError does not expose its kind; its documented Display does: a source error is shown as the source's
+/// own error (ours all read "injected source failure #k"), a content error as "<message> (at position <n>)".
+/// Nothing here depends on private field names or on the derived Debug output.
+pub fn is_source_err<E: std::fmt::Display>(e: &DecodeError<E>) -> bool {
+    let shown = format!("{}", e);
+    shown.starts_with("injected source failure #") && !shown.contains(" (at position ")
+}
 
 // ---------- typed leaves ----------
 fn typed_prim<S: Source>(ty: u8, p: &mut Primitive<S>, log: &mut Log) -> Result<(), DecodeError<S::Error>> {
